@@ -145,7 +145,24 @@ _real_inverse = Affine2D.inverse
 _real_check_overflows = P.PaintRadialGradient.check_overflows
 
 
-INVERSES = []  # (M, M^-1) pairs handed out on the current path (harnesses may use them as witnesses)
+class _PathLocalInverses:
+    """(M, M^-1) pairs handed out on the CURRENT path (stored in the path context, so nothing
+    leaks between paths); harnesses may use them as witnesses."""
+
+    def _lst(self):
+        return core.ctx().trig.setdefault("inverses", [])
+
+    def __iter__(self):
+        return iter(list(self._lst()))
+
+    def append(self, x):
+        self._lst().append(x)
+
+    def clear(self):
+        self._lst().clear()
+
+
+INVERSES = _PathLocalInverses()
 
 
 def stub_inverse(self):
